@@ -114,3 +114,25 @@ Proof. intros H. unfold rl_step. rewrite H. destruct (rl_get ip s') as [e|]; [de
 Example rl_burst : snd (rl_run 3 [] [(0, "a"); (1, "a"); (2, "b"); (3, "a"); (4, "a"); (second + 10, "a")])
                    = [true; true; true; true; false; true].
 Proof. vm_compute. reflexivity. Qed.
+
+(* ---- the address a request is accounted to ------------------------------------------------------------ *)
+Fixpoint last_colon (s : string) (i : nat) (acc : option nat) : option nat :=
+  match s with
+  | EmptyString => acc
+  | String c r => last_colon r (S i) (if Ascii.eqb c ":" then Some i else acc)
+  end.
+
+(* RemoteAddr without its port: ip[:LastIndex(ip, ":")] when that index is positive *)
+Definition strip_port (s : string) : string :=
+  match last_colon s 0 None with
+  | Some (S n) => substring 0 (S n) s
+  | _ => s
+  end.
+
+(* first element of X-Forwarded-For when the header is present, else RemoteAddr minus the port *)
+Definition rl_ip (xff remote : string) : string :=
+  if String.eqb xff "" then strip_port remote else cut_at ", " xff.
+
+(* requests as they arrive: time, X-Forwarded-For, RemoteAddr *)
+Definition rl_serve (L : Z) (reqs : list (Z * (string * string))) : list bool :=
+  snd (rl_run L [] (map (fun r => (fst r, rl_ip (fst (snd r)) (snd (snd r)))) reqs)).
